@@ -6,7 +6,7 @@ fn fmt_stub(_a: std::fmt::Arguments<'_>) -> String { String::new() }
 /// ElixirDate::from_term on a well-shaped %Date{} term with ARBITRARY i64 field values: either the term is rejected,
 /// or every field of the result is exactly the integer the term carried (no truncation)
 #[kani::proof]
-#[kani::unwind(12)]
+#[kani::unwind(24)]
 #[kani::stub(alloc::fmt::format, fmt_stub)]
 fn date_from_term_no_truncation__complete() {
     let y: i64 = kani::any();
